@@ -12,4 +12,5 @@ CONSTANTS
   AbortAfterPartial = TRUE
   EndMarkerOnlyOnSuccess = FALSE
   CopyErrorReturned = TRUE
+  DumpRowErrorsReturned = TRUE
 INVARIANTS TypeOK CutIsError Consistent Complete GateReleased
